@@ -56,7 +56,7 @@ struct Dom
         {
             for (auto& f : fields())
             {
-                if (!group().empty() && !group().count(f.name)) continue;
+                if (!f.has_setter || (!group().empty() && !group().count(f.name))) continue;
                 for (size_t v = 0; v < f.values.size(); ++v) ops.push_back(Op{"set", {t, (long long)v}, {f.name}});
             }
             for (const char* which : {"hot_cue_at", "loop_at"})
